@@ -82,13 +82,30 @@ def step (s : Sess) (c : Cmd) : Sess × String × String :=
     fin { mem := m } "st=-" "st=-"
   | "zit_new" =>
     let k2 := c.nat "o2" 1
-    if k2 ≥ nslot ∨ (getM s k).isNone ∨ (getM s k2).isNone ∨ k == k2 then early s m "nosession" else
+    if k2 ≥ nslot ∨ (getM s k).isNone ∨ (getM s k2).isNone then early s m "nosession" else
     fin { s with mem := m, zit := some (k, k2, {}), szit := some (k, k2, {}) } "st=-" "st=-"
   | "zit_next" | "zit_replace" =>
     match s.zit, s.szit with
     | some (ka, kb, it), some (_, _, cur) =>
       match getM s ka, getM s kb, getS s ka, getS s kb with
       | some q1, some q2, some f1, some f2 =>
+        if ka == kb then
+          -- both sides are the same queue: the one state is threaded through both halves
+          if c.op == "zit_next" then
+            let r := Queue.zipNext it q1 q1 m
+            let sp := Spec.DequeSpec.zipNextSelf f1.view cur
+            fin { s with mem := r.2.2.2, zit := some (ka, kb, r.2.2.1), szit := some (ka, kb, sp.2.2) }
+              (hdOut2 sp.1 sp.2.1 false) (hdOut2 r.1 r.2.1 false)
+          else
+            let r := Queue.zipReplaceSelf it q1 a0 a1 m
+            let sp := Spec.DequeSpec.zipReplaceSelf f1.view cur a0 a1
+            let pr (st : Stat) (o1 o2 : Option Nat) : String :=
+              match o1, o2 with
+              | some a, some b => if st == .ok && !noout then s!"{fmtStat st} out={a} out2={b}" else fmtStat st
+              | _, _ => fmtStat st
+            fin (setS (setM { s with mem := r.2.2.2.2 } ka (some r.2.2.2.1)) ka (some (fifoOfView sp.2.2.2)))
+              (pr sp.1 sp.2.1 sp.2.2.1) (pr r.1 r.2.1 r.2.2.1)
+        else
         if c.op == "zit_next" then
           let r := Queue.zipNext it q1 q2 m
           let sp := Spec.DequeSpec.zipNext f1.view f2.view cur
